@@ -3,6 +3,4 @@ import McpModel.Base.Proto
 import McpModel.EventStore.Props
 import McpModel.EventStore.Driver
 import McpModel.Bearer.Props
-import McpModel.Bearer.Driver
 import McpModel.KeepAlive.Props
-import McpModel.KeepAlive.Driver
